@@ -223,6 +223,40 @@ template <typename L, typename F, typename T> long long c_modeq(long long a, lon
 template <typename L, typename F, typename T> long long c_tp_addeq(long long a, long long b) { typename L::template tp<F> p{F{(REPF)a}}; return (p += F{(REPF)b}).time_since_epoch().count(); }
 template <typename L, typename F, typename T> long long c_tp_subeq(long long a, long long b) { typename L::template tp<F> p{F{(REPF)a}}; return (p -= F{(REPF)b}).time_since_epoch().count(); }
 
+// lvalue semantics of every compound / increment operator of duration and time_point (depend on From only, so one
+// instantiation per From type serves all ten To cells).  *_id : the expression designates the object itself
+// (bound with auto&& so that an operator returning a copy still compiles and is seen as a different address);
+// *_ch : a chained use `++(x op= y)` (`--(--x)` for decrement) - the final state of x is the observable.
+#define LV_DUR F x{(REPF)a}; F const y{(REPF)b}; (void)y;
+#define LV_TP typename L::template tp<F> x{F{(REPF)a}}; F const y{(REPF)b}; (void)y;
+#define LV_ID(NAME, DECL, EXPR) template <typename L, typename F> long long NAME(long long a, long long b) { DECL auto&& r = (EXPR); return static_cast<void const*>(&r) == static_cast<void const*>(&x); }
+#define LV_CH(NAME, DECL, STMT, OBS) template <typename L, typename F> long long NAME(long long a, long long b) { DECL STMT; return OBS; }
+LV_ID(l_d_addeq_id, LV_DUR, x += y) LV_CH(l_d_addeq_ch, LV_DUR, ++(x += y), x.count())
+LV_ID(l_d_subeq_id, LV_DUR, x -= y) LV_CH(l_d_subeq_ch, LV_DUR, ++(x -= y), x.count())
+LV_ID(l_d_modeq_id, LV_DUR, x %= y) LV_CH(l_d_modeq_ch, LV_DUR, ++(x %= y), x.count())
+LV_ID(l_d_mulk_id, LV_DUR, x *= (REPF)3) LV_CH(l_d_mulk_ch, LV_DUR, ++(x *= (REPF)3), x.count())
+LV_ID(l_d_divk_id, LV_DUR, x /= (REPF)3) LV_CH(l_d_divk_ch, LV_DUR, ++(x /= (REPF)3), x.count())
+LV_ID(l_d_modk_id, LV_DUR, x %= (REPF)7) LV_CH(l_d_modk_ch, LV_DUR, ++(x %= (REPF)7), x.count())
+LV_ID(l_d_inc_id, LV_DUR, ++x) LV_CH(l_d_inc_ch, LV_DUR, ++(++x), x.count())
+LV_ID(l_d_dec_id, LV_DUR, --x) LV_CH(l_d_dec_ch, LV_DUR, --(--x), x.count())
+LV_ID(l_tp_addeq_id, LV_TP, x += y) LV_CH(l_tp_addeq_ch, LV_TP, ++(x += y), x.time_since_epoch().count())
+LV_ID(l_tp_subeq_id, LV_TP, x -= y) LV_CH(l_tp_subeq_ch, LV_TP, ++(x -= y), x.time_since_epoch().count())
+LV_ID(l_tp_inc_id, LV_TP, ++x) LV_CH(l_tp_inc_ch, LV_TP, ++(++x), x.time_since_epoch().count())
+LV_ID(l_tp_dec_id, LV_TP, --x) LV_CH(l_tp_dec_ch, LV_TP, --(--x), x.time_since_epoch().count())
+// a second chain shape per time_point/duration compound assignment: (x op= y) op'= y  (the result used as the left operand again)
+LV_CH(l_d_addsub_ch, LV_DUR, (x += y) -= y, x.count()) LV_CH(l_d_subadd_ch, LV_DUR, (x -= y) += y, x.count())
+LV_CH(l_tp_addsub_ch, LV_TP, (x += y) -= y, x.time_since_epoch().count()) LV_CH(l_tp_subadd_ch, LV_TP, (x -= y) += y, x.time_since_epoch().count())
+#undef LV_ID
+#undef LV_CH
+
+enum LOp { L_D_ADDEQ, L_D_SUBEQ, L_D_MODEQ, L_D_MULK, L_D_DIVK, L_D_MODK, L_D_INC, L_D_DEC, L_TP_ADDEQ, L_TP_SUBEQ, L_TP_INC, L_TP_DEC, L_N };
+char const* const kLIdName[L_N] = {"&(d+=d)==&d", "&(d-=d)==&d", "&(d%=d)==&d", "&(d*=k)==&d", "&(d/=k)==&d", "&(d%=k)==&d", "&(++d)==&d", "&(--d)==&d",
+    "&(tp+=d)==&tp", "&(tp-=d)==&tp", "&(++tp)==&tp", "&(--tp)==&tp"};
+char const* const kLChName[L_N] = {"++(d+=d)", "++(d-=d)", "++(d%=d)", "++(d*=k)", "++(d/=k)", "++(d%=k)", "++(++d)", "--(--d)", "++(tp+=d)", "++(tp-=d)",
+    "++(++tp)", "--(--tp)"};
+enum XOp { X_D_ADDSUB, X_D_SUBADD, X_TP_ADDSUB, X_TP_SUBADD, X_N };
+char const* const kXName[X_N] = {"(d+=a)-=a", "(d-=a)+=a", "(tp+=a)-=a", "(tp-=a)+=a"};
+
 enum UOp { U_CAST, U_FLOOR, U_CEIL, U_ROUND, U_FLOOR_TP, U_CEIL_TP, U_ROUND_TP, U_IMPLICIT, U_COMMON, U_ABS, U_NEG, U_POS, U_PREINC, U_PREDEC,
     U_POSTINC_RET, U_POSTINC_STATE, U_POSTDEC_RET, U_POSTDEC_STATE, U_TP_PREINC, U_TP_PREDEC, U_TP_POSTINC_RET, U_TP_POSTINC_STATE,
     U_TP_POSTDEC_RET, U_TP_POSTDEC_STATE, U_N };
@@ -254,6 +288,8 @@ struct IntDesc {
     bool implicit;  // From -> To is a lossless implicit conversion (both libraries agree on that, see type facts)
     Fn1 ue[U_N], us[U_N];
     Fn2 ke[K_N], ks[K_N], be[B_N], bs[B_N], ce[C_N], cs[C_N];
+    Fn2 lide[L_N], lids[L_N], lche[L_N], lchs[L_N], xe[X_N], xs[X_N];
+    bool diag; // From period == To period: the cell that runs the From-only lvalue checks
     std::vector<TypeFact> facts;
     std::vector<Absent> absent;
 };
@@ -303,6 +339,19 @@ IntDesc const& int_desc()
         BOTH(b, B_TP_LT, b_tp_lt) BOTH(b, B_TP_LE, b_tp_le) BOTH(b, B_TP_GT, b_tp_gt) BOTH(b, B_TP_GE, b_tp_ge)
         BOTH(c, C_ADDEQ, c_addeq) BOTH(c, C_SUBEQ, c_subeq) BOTH(c, C_MODEQ, c_modeq) BOTH(c, C_TP_ADDEQ, c_tp_addeq) BOTH(c, C_TP_SUBEQ, c_tp_subeq)
 #undef BOTH
+        x.diag = I1 == I2;
+#define LV(IDX, STEM)                                                                                                  \
+    x.lide[IDX] = &STEM##_id<EL, EF>;                                                                                  \
+    x.lids[IDX] = &STEM##_id<SL, SF>;                                                                                  \
+    x.lche[IDX] = &STEM##_ch<EL, EF>;                                                                                  \
+    x.lchs[IDX] = &STEM##_ch<SL, SF>;
+        LV(L_D_ADDEQ, l_d_addeq) LV(L_D_SUBEQ, l_d_subeq) LV(L_D_MODEQ, l_d_modeq) LV(L_D_MULK, l_d_mulk) LV(L_D_DIVK, l_d_divk) LV(L_D_MODK, l_d_modk)
+        LV(L_D_INC, l_d_inc) LV(L_D_DEC, l_d_dec) LV(L_TP_ADDEQ, l_tp_addeq) LV(L_TP_SUBEQ, l_tp_subeq) LV(L_TP_INC, l_tp_inc) LV(L_TP_DEC, l_tp_dec)
+#undef LV
+        x.xe[X_D_ADDSUB] = &l_d_addsub_ch<EL, EF>; x.xs[X_D_ADDSUB] = &l_d_addsub_ch<SL, SF>;
+        x.xe[X_D_SUBADD] = &l_d_subadd_ch<EL, EF>; x.xs[X_D_SUBADD] = &l_d_subadd_ch<SL, SF>;
+        x.xe[X_TP_ADDSUB] = &l_tp_addsub_ch<EL, EF>; x.xs[X_TP_ADDSUB] = &l_tp_addsub_ch<SL, SF>;
+        x.xe[X_TP_SUBADD] = &l_tp_subadd_ch<EL, EF>; x.xs[X_TP_SUBADD] = &l_tp_subadd_ch<SL, SF>;
         Fac const& F = x.F;
         x.facts = {
             {"common_type::period::num", (long long)ECD::period::num == F.cn, (long long)SCD::period::num == F.cn},
@@ -322,6 +371,29 @@ IntDesc const& int_desc()
             {"decltype(floor<To>(tp))", std::is_same_v<decltype(ec::floor<ET>(ETPF{})), ETPT>, std::is_same_v<decltype(sc::floor<ST>(STPF{})), STPT>},
             {"common_type<time_point>", std::is_same_v<etl::common_type_t<ETPF, ETPT>, ec::time_point<ec::system_clock, ECD>>,
                 std::is_same_v<std::common_type_t<STPF, STPT>, sc::time_point<sc::system_clock, SCD>>},
+            // declared result types: compound assignment and prefix ++/-- yield an lvalue reference to the object, postfix a prvalue
+#define LREF(X, T_) std::is_same_v<decltype(X), T_&>
+#define DV(T_) std::declval<T_&>()
+#define DC(T_) std::declval<T_ const&>()
+            {"decltype(d+=d) is duration&", LREF(DV(EF) += DC(EF), EF), LREF(DV(SF) += DC(SF), SF)},
+            {"decltype(d-=d) is duration&", LREF(DV(EF) -= DC(EF), EF), LREF(DV(SF) -= DC(SF), SF)},
+            {"decltype(d%=d) is duration&", LREF(DV(EF) %= DC(EF), EF), LREF(DV(SF) %= DC(SF), SF)},
+            {"decltype(d*=k) is duration&", LREF(DV(EF) *= DC(R1), EF), LREF(DV(SF) *= DC(R1), SF)},
+            {"decltype(d/=k) is duration&", LREF(DV(EF) /= DC(R1), EF), LREF(DV(SF) /= DC(R1), SF)},
+            {"decltype(d%=k) is duration&", LREF(DV(EF) %= DC(R1), EF), LREF(DV(SF) %= DC(R1), SF)},
+            {"decltype(++d) is duration&", LREF(++DV(EF), EF), LREF(++DV(SF), SF)},
+            {"decltype(--d) is duration&", LREF(--DV(EF), EF), LREF(--DV(SF), SF)},
+            {"decltype(d++) is duration", std::is_same_v<decltype(DV(EF)++), EF>, std::is_same_v<decltype(DV(SF)++), SF>},
+            {"decltype(d--) is duration", std::is_same_v<decltype(DV(EF)--), EF>, std::is_same_v<decltype(DV(SF)--), SF>},
+            {"decltype(tp+=d) is time_point&", LREF(DV(ETPF) += DC(EF), ETPF), LREF(DV(STPF) += DC(SF), STPF)},
+            {"decltype(tp-=d) is time_point&", LREF(DV(ETPF) -= DC(EF), ETPF), LREF(DV(STPF) -= DC(SF), STPF)},
+            {"decltype(++tp) is time_point&", LREF(++DV(ETPF), ETPF), LREF(++DV(STPF), STPF)},
+            {"decltype(--tp) is time_point&", LREF(--DV(ETPF), ETPF), LREF(--DV(STPF), STPF)},
+            {"decltype(tp++) is time_point", std::is_same_v<decltype(DV(ETPF)++), ETPF>, std::is_same_v<decltype(DV(STPF)++), STPF>},
+            {"decltype(tp--) is time_point", std::is_same_v<decltype(DV(ETPF)--), ETPF>, std::is_same_v<decltype(DV(STPF)--), STPF>},
+#undef LREF
+#undef DV
+#undef DC
         };
         x.absent = {
             {"duration * rep", can_mul<EF, R1>}, {"rep * duration", can_mul<R1, EF>}, {"duration / rep", can_div<EF, R1>},
@@ -365,6 +437,18 @@ char const* frac_sit(i128 num, i128 den)
     return "tie";
 }
 
+// vf::eq_int forms obs - exp in long long; for wildly wrong values (0 vs INT64_MIN) that subtraction itself overflows
+// under UBSan and would turn the divergence into a crash record.  Classify those here.
+void eq_count(long long e, long long s)
+{
+    if (e == s) { return; }
+    i128 const d = (i128)e - (i128)s;
+    if (kL64.has(d)) {
+        vf::eq_int("count", e, s);
+    } else {
+        vf::diverge(d > 0 ? "count:greater" : "count:less", vf::to_s(e), vf::to_s(s));
+    }
+}
 // one compared evaluation: reference first, (oracle cross-check), breadcrumb, tetl, account, compare
 void eval1(Ctx& c, char const* op, char const* sit, char const* args, std::uint64_t argh, i128 exact, Fn1 fs, Fn1 fe, long long x, bool boolean = false)
 {
@@ -376,7 +460,7 @@ void eval1(Ctx& c, char const* op, char const* sit, char const* args, std::uint6
     if (boolean) {
         vf::eq_bool("ret", e != 0, s != 0);
     } else {
-        vf::eq_int("count", e, s);
+        eq_count(e, s);
     }
 }
 void eval2(Ctx& c, char const* op, char const* sit, char const* args, std::uint64_t argh, i128 exact, Fn2 fs, Fn2 fe, long long x, long long y, bool boolean = false)
@@ -389,7 +473,7 @@ void eval2(Ctx& c, char const* op, char const* sit, char const* args, std::uint6
     if (boolean) {
         vf::eq_bool("ret", e != 0, s != 0);
     } else {
-        vf::eq_int("count", e, s);
+        eq_count(e, s);
     }
 }
 
@@ -616,6 +700,35 @@ struct IntCell {
             eval2(c, kCName[C_TP_SUBEQ], sit, args, argh, c1 - c2, D.cs[C_TP_SUBEQ], D.ce[C_TP_SUBEQ], x, y);
         }
         if (c2 != 0 && D.l1.has(c1 / c2)) { eval2(c, kCName[C_MODEQ], sit, args, argh, c1 % c2, D.cs[C_MODEQ], D.ce[C_MODEQ], x, y); }
+        if (D.diag) { lvalues(c1, c2, sit, args, argh, x, y); }
+    }
+    // (b) reference identity and (c) chained use of every compound / increment operator; From-only, so run in the diagonal cell
+    void lvalues(i128 c1, i128 c2, char const* sit, char const* args, std::uint64_t argh, long long x, long long y)
+    {
+        struct Step {
+            bool ok;     // the operator itself is in domain
+            i128 after;  // value after the operator
+            int bump;    // chained second step: +1 (++) or -1 (--)
+        };
+        bool const divok = c2 != 0 && D.l1.has(c1 / c2);
+        Step const st[L_N] = {
+            {D.l1.has(c1 + c2), c1 + c2, 1}, {D.l1.has(c1 - c2), c1 - c2, 1}, {divok, divok ? c1 % c2 : 0, 1}, {D.l1.has(c1 * 3), c1 * 3, 1},
+            {true, c1 / 3, 1}, {true, c1 % 7, 1}, {D.l1.has(c1 + 1), c1 + 1, 1}, {D.l1.has(c1 - 1), c1 - 1, -1},
+            {D.l1.has(c1 + c2), c1 + c2, 1}, {D.l1.has(c1 - c2), c1 - c2, 1}, {D.l1.has(c1 + 1), c1 + 1, 1}, {D.l1.has(c1 - 1), c1 - 1, -1},
+        };
+        for (int op = 0; op < L_N; ++op) {
+            if (!st[op].ok) { continue; }
+            eval2(c, kLIdName[op], sit, args, argh, 1, D.lids[op], D.lide[op], x, y, true);
+            if (D.l1.has(st[op].after + st[op].bump)) { eval2(c, kLChName[op], sit, args, argh, st[op].after + st[op].bump, D.lchs[op], D.lche[op], x, y); }
+        }
+        if (D.l1.has(c1 + c2)) {
+            eval2(c, kXName[X_D_ADDSUB], sit, args, argh, c1, D.xs[X_D_ADDSUB], D.xe[X_D_ADDSUB], x, y);
+            eval2(c, kXName[X_TP_ADDSUB], sit, args, argh, c1, D.xs[X_TP_ADDSUB], D.xe[X_TP_ADDSUB], x, y);
+        }
+        if (D.l1.has(c1 - c2)) {
+            eval2(c, kXName[X_D_SUBADD], sit, args, argh, c1, D.xs[X_D_SUBADD], D.xe[X_D_SUBADD], x, y);
+            eval2(c, kXName[X_TP_SUBADD], sit, args, argh, c1, D.xs[X_TP_SUBADD], D.xe[X_TP_SUBADD], x, y);
+        }
     }
 
     void run()
